@@ -128,7 +128,6 @@ def lex_opcode_size(s: "Scanner") -> None:
 
         return lex_operand(s)
     else:
-        s.next()
         raise ScannerException("Invalid Size Specifier", s.get_position())
 
 
